@@ -114,25 +114,54 @@ func propC18(w *World, r *Report) {
 		return
 	}
 	e := newTermEnv(w)
-	// channels made in handleConn
-	var chans []*ssa.MakeChan
+	// channels of the connection: made in the handler, or returned by a pool constructor of the package
+	type chanInfo struct {
+		val   ssa.Value // the channel value in the handler
+		mk    *ssa.MakeChan
+		owner *ssa.Function
+		env   *termEnv
+	}
+	var chans []*chanInfo
 	var goStmts []*ssa.Go
 	for _, b := range hc.Blocks {
 		for _, in := range b.Instrs {
 			switch x := in.(type) {
 			case *ssa.MakeChan:
-				chans = append(chans, x)
+				chans = append(chans, &chanInfo{val: x, mk: x, owner: hc, env: e})
 			case *ssa.Go:
 				goStmts = append(goStmts, x)
+			case *ssa.Call:
+				callee := x.Call.StaticCallee()
+				if callee == nil || !w.IsRepoFunc(callee) || callee.Signature.Results().Len() != 1 {
+					continue
+				}
+				if _, isChan := callee.Signature.Results().At(0).Type().Underlying().(*types.Chan); !isChan {
+					continue
+				}
+				var mk *ssa.MakeChan
+				for _, cb := range callee.Blocks {
+					for _, ci := range cb.Instrs {
+						if m, ok := ci.(*ssa.MakeChan); ok {
+							mk = m
+						}
+					}
+				}
+				if mk != nil {
+					ce := e.child()
+					for pi, p := range callee.Params {
+						ce.bind[p] = e.termOf(x.Call.Args[pi])
+					}
+					chans = append(chans, &chanInfo{val: x, mk: mk, owner: callee, env: ce})
+				}
 			}
 		}
 	}
 	if !r.Check(len(chans) == 2, "W3", "two channels connect reader and writer", w.Pos(hc.Pos()), fmt.Sprint(len(chans))) {
 		return
 	}
-	cap0, cap1 := e.termOf(chans[0].Size).String(), e.termOf(chans[1].Size).String()
-	_, isConst := chans[0].Size.(*ssa.Const)
-	r.Check(cap0 == cap1 && isConst, "W3", "both channels have the same constant capacity", w.InstrPos(chans[0]), cap0+" / "+cap1)
+	cap0, cap1 := chans[0].env.termOf(chans[0].mk.Size).String(), chans[1].env.termOf(chans[1].mk.Size).String()
+	_, errNum := fmt.Sscan(cap0, new(int64))
+	r.Check(cap0 == cap1 && errNum == nil, "W3", "both channels have the same constant capacity", w.InstrPos(chans[0].mk), cap0+" / "+cap1)
 	if !r.Check(len(goStmts) == 1 && !inLoop(goStmts[0].Block()), "W3", "exactly one writer goroutine is started per connection, outside any loop", w.Pos(hc.Pos()), fmt.Sprint(len(goStmts))) {
 		return
 	}
@@ -141,10 +170,15 @@ func propC18(w *World, r *Report) {
 		r.Unknown("W3", "writer goroutine", w.InstrPos(goStmts[0]), "callee not resolved")
 		return
 	}
-	// which channel is which: the one handleConn receives from = spent; sends received buffers to = write
-	var spent, write *ssa.MakeChan
+	// which channel is which: the one the handler receives from = spent; sends received buffers to = write
+	var spentI, writeI *chanInfo
 	var recvs []*ssa.UnOp
-	var sends []*ssa.Send
+	type sendSite struct {
+		s   *ssa.Send
+		ch  ssa.Value // channel value in the handler's terms
+		env *termEnv
+	}
+	var sends []sendSite
 	for _, b := range hc.Blocks {
 		for _, in := range b.Instrs {
 			switch x := in.(type) {
@@ -153,39 +187,54 @@ func propC18(w *World, r *Report) {
 					recvs = append(recvs, x)
 				}
 			case *ssa.Send:
-				sends = append(sends, x)
+				sends = append(sends, sendSite{x, chanOf(x.Chan), e})
+			}
+		}
+	}
+	// sends inside a pool constructor go to the channel it returns
+	for _, c := range chans {
+		if c.owner == hc {
+			continue
+		}
+		for _, b := range c.owner.Blocks {
+			for _, in := range b.Instrs {
+				if x, ok := in.(*ssa.Send); ok && chanOf(x.Chan) == ssa.Value(c.mk) {
+					sends = append(sends, sendSite{x, c.val, c.env})
+				}
 			}
 		}
 	}
 	for _, rc := range recvs {
 		for _, c := range chans {
-			if chanOf(rc.X) == ssa.Value(c) {
-				spent = c
+			if chanOf(rc.X) == c.val {
+				spentI = c
 			}
 		}
 	}
 	for _, c := range chans {
-		if c != spent {
-			write = c
+		if c != spentI {
+			writeI = c
 		}
 	}
-	if spent == nil || write == nil || len(recvs) != 1 {
+	if spentI == nil || writeI == nil || len(recvs) != 1 {
 		r.Unknown("W1", "channel roles", w.Pos(hc.Pos()), "could not identify the spent / write channels")
 		return
 	}
+	spent, write := spentI.val, writeI.val
 	frame := recvs[0]
 	// sends in handleConn
 	nInit, nFwd := 0, 0
-	for _, s := range sends {
+	for _, ss := range sends {
+		s := ss.s
 		switch {
-		case chanOf(s.Chan) == ssa.Value(spent):
+		case ss.ch == spent:
 			ms, isMake := s.X.(*ssa.MakeSlice)
 			nInit++
-			r.Check(isMake && ms.Block() == s.Block(), "W1", "reader: only freshly allocated buffers are injected into the spent channel", w.InstrPos(s), e.termOf(s.X).String())
+			r.Check(isMake && ms.Block() == s.Block(), "W1", "reader: only buffers freshly allocated for this connection are injected into the spent channel", w.InstrPos(s), ss.env.termOf(s.X).String())
 			// loop count == capacity
 			okLoop := false
 			detail := ""
-			for _, g := range e.guardsOf(s.Block()) {
+			for _, g := range ss.env.guardsOf(s.Block()) {
 				detail += g.String() + " "
 				if g.Pos && g.Cond.Op == "lt" && g.Cond.Args[0].String() == "iv(0, 1)" && g.Cond.Args[1].String() == cap0 {
 					okLoop = true
@@ -193,9 +242,9 @@ func propC18(w *World, r *Report) {
 			}
 			r.Check(okLoop, "W3", "exactly capacity-many distinct buffers are injected (loop i = 0 .. capacity-1)", w.InstrPos(s), detail)
 			if isMake {
-				r.Check(strings.HasPrefix(e.termOf(ms.Len).String(), "headers.HeaderInfo.FrameSize("), "W5", "buffers have the frame size announced in the header", w.InstrPos(ms), e.termOf(ms.Len).String())
+				r.Check(strings.HasPrefix(ss.env.termOf(ms.Len).String(), "headers.HeaderInfo.FrameSize("), "W5", "buffers have the frame size announced in the header", w.InstrPos(ms), ss.env.termOf(ms.Len).String())
 			}
-		case chanOf(s.Chan) == ssa.Value(write):
+		case ss.ch == write:
 			nFwd++
 			r.Check(s.X == ssa.Value(frame), "W1", "reader: the buffer sent to the writer is the one received from the spent channel", w.InstrPos(s), e.termOf(s.X).String())
 			late := usesAfter(s, frame)
@@ -226,7 +275,7 @@ func propC18(w *World, r *Report) {
 			return false
 		}
 		bi, ok := c.Call.Value.(*ssa.Builtin)
-		return ok && bi.Name() == "close" && chanOf(c.Call.Args[0]) == ssa.Value(write)
+		return ok && bi.Name() == "close" && chanOf(c.Call.Args[0]) == write
 	})
 	for ret, ok := range closed {
 		r.Check(ok, "W4", "reader: the write channel is closed on this exit after the writer was started", w.InstrPos(ret), "")
@@ -236,9 +285,9 @@ func propC18(w *World, r *Report) {
 	var inParam, outParam *ssa.Parameter
 	for i, a := range goStmts[0].Call.Args {
 		switch chanOf(a) {
-		case ssa.Value(write):
+		case write:
 			inParam = wr.Params[i]
-		case ssa.Value(spent):
+		case spent:
 			outParam = wr.Params[i]
 		}
 	}
